@@ -16,11 +16,11 @@ PROPERTY = 'C05'
 LEVEL = 'model_checking'
 
 
-def check_term(term, part, want=('c05',)):
+def check_term(term, part, want=('c05',), configs=None):
     doc = docalg.build(term)
     ls = docalg.layout_set(term)
     interesting = False
-    for (width, frac, _r) in docalg.config_lattice(term):
+    for (width, frac, _r) in (configs if configs is not None else docalg.config_lattice(term)):
         rw = docalg.ribbon_width(width, frac)
         for sname, layout in D.strategies():
             part.n += 1
@@ -62,6 +62,12 @@ def check_term(term, part, want=('c05',)):
 
 
 def work(item):
+    if item[0] == 'scaled':
+        part = core.Part()
+        for term, configs in D.scaled_documents()[item[1]:item[2]]:
+            check_term(term, part, configs=configs)
+            part.c['scaled_terms'] += 1
+        return part
     n, lo, hi = item
     part = core.Part()
     a = D.alphabet()
@@ -90,6 +96,9 @@ def plan(tier, seed):
         lo = (seed % (total // width)) * width
         items.append((7, lo, lo + width))
         desc.append('classic algebra size 7: slice [%d, %d) chosen by seed' % (lo, lo + width))
+    ns = len(D.scaled_documents())
+    items += [('scaled', i, i + 1) for i in range(ns)]
+    desc.append('%d scaled documents (one group around 50..700 words, plain / nested / followed by text) at widths around their flat length and far above 1000 columns' % ns)
     return items, desc
 
 
